@@ -1,35 +1,71 @@
-(* C13 (3): Fourier1 per-direction factor f1s n enclosed by interval arithmetic, n in [6, 12, 20, 29]
+(* C13 (3): Fourier1 per-direction factor f1s n enclosed by interval arithmetic on its closed form, n in [4, 13, 20, 29, 36, 45, 52, 61]
    (file generated once by a script, split for parallel compilation; independent of /repo). *)
-From Coq Require Import ZArith List Reals Lra.
+From Coq Require Import ZArith List Lia Reals Lra.
 From Interval Require Import Tactic.
 From Flocq Require Import Raux.
-From P Require Import C13_gen C13_model C13_proofs_weights.
+From P Require Import C13_gen C13_model C13_proofs_weights C13_proofs_f1c.
 Open Scope R_scope.
 
-Lemma f1s_bound_6 : 1 - / IZR 6 <= f1s 6 <= 1.
+Lemma f1s_bound_4 : 1 - / IZR 4 <= f1s 4 <= 1.
 Proof.
-  assert (H : Rabs (f1s 6 - (1 - / IZR 6 / 2)) <= / IZR 6 / 2).
-  { unfold f1s, fourier1_dir, sumR. ev. interval. }
+  rewrite f1s_closed_form by (clear; lia).
+  assert (H : Rabs (f1s_closed 4 - (1 - / IZR 4 / 2)) <= / IZR 4 / 2).
+  { unfold f1s_closed, f1_term, sumR. ev. interval. }
   apply Rabs_le_inv in H. lra.
 Qed.
 
-Lemma f1s_bound_12 : 1 - / IZR 12 <= f1s 12 <= 1.
+Lemma f1s_bound_13 : 1 - / IZR 13 <= f1s 13 <= 1.
 Proof.
-  assert (H : Rabs (f1s 12 - (1 - / IZR 12 / 2)) <= / IZR 12 / 2).
-  { unfold f1s, fourier1_dir, sumR. ev. interval. }
+  rewrite f1s_closed_form by (clear; lia).
+  assert (H : Rabs (f1s_closed 13 - (1 - / IZR 13 / 2)) <= / IZR 13 / 2).
+  { unfold f1s_closed, f1_term, sumR. ev. interval. }
   apply Rabs_le_inv in H. lra.
 Qed.
 
 Lemma f1s_bound_20 : 1 - / IZR 20 <= f1s 20 <= 1.
 Proof.
-  assert (H : Rabs (f1s 20 - (1 - / IZR 20 / 2)) <= / IZR 20 / 2).
-  { unfold f1s, fourier1_dir, sumR. ev. interval. }
+  rewrite f1s_closed_form by (clear; lia).
+  assert (H : Rabs (f1s_closed 20 - (1 - / IZR 20 / 2)) <= / IZR 20 / 2).
+  { unfold f1s_closed, f1_term, sumR. ev. interval. }
   apply Rabs_le_inv in H. lra.
 Qed.
 
 Lemma f1s_bound_29 : 1 - / IZR 29 <= f1s 29 <= 1.
 Proof.
-  assert (H : Rabs (f1s 29 - (1 - / IZR 29 / 2)) <= / IZR 29 / 2).
-  { unfold f1s, fourier1_dir, sumR. ev. interval. }
+  rewrite f1s_closed_form by (clear; lia).
+  assert (H : Rabs (f1s_closed 29 - (1 - / IZR 29 / 2)) <= / IZR 29 / 2).
+  { unfold f1s_closed, f1_term, sumR. ev. interval. }
+  apply Rabs_le_inv in H. lra.
+Qed.
+
+Lemma f1s_bound_36 : 1 - / IZR 36 <= f1s 36 <= 1.
+Proof.
+  rewrite f1s_closed_form by (clear; lia).
+  assert (H : Rabs (f1s_closed 36 - (1 - / IZR 36 / 2)) <= / IZR 36 / 2).
+  { unfold f1s_closed, f1_term, sumR. ev. interval. }
+  apply Rabs_le_inv in H. lra.
+Qed.
+
+Lemma f1s_bound_45 : 1 - / IZR 45 <= f1s 45 <= 1.
+Proof.
+  rewrite f1s_closed_form by (clear; lia).
+  assert (H : Rabs (f1s_closed 45 - (1 - / IZR 45 / 2)) <= / IZR 45 / 2).
+  { unfold f1s_closed, f1_term, sumR. ev. interval. }
+  apply Rabs_le_inv in H. lra.
+Qed.
+
+Lemma f1s_bound_52 : 1 - / IZR 52 <= f1s 52 <= 1.
+Proof.
+  rewrite f1s_closed_form by (clear; lia).
+  assert (H : Rabs (f1s_closed 52 - (1 - / IZR 52 / 2)) <= / IZR 52 / 2).
+  { unfold f1s_closed, f1_term, sumR. ev. interval. }
+  apply Rabs_le_inv in H. lra.
+Qed.
+
+Lemma f1s_bound_61 : 1 - / IZR 61 <= f1s 61 <= 1.
+Proof.
+  rewrite f1s_closed_form by (clear; lia).
+  assert (H : Rabs (f1s_closed 61 - (1 - / IZR 61 / 2)) <= / IZR 61 / 2).
+  { unfold f1s_closed, f1_term, sumR. ev. interval. }
   apply Rabs_le_inv in H. lra.
 Qed.
